@@ -121,7 +121,10 @@ def run(res, f, tier):
             allowed = set("parse::reval::__action%d" % a for a in action_helper.get(p, ()))
             ob(callers <= allowed, "C06|slice-callers|%s" % p, "slicing helper %s is also called from %s, where the argument is not a token of the discharging regex" % (p, sorted(callers - allowed)))
     res.floor("slicing obligations", len(slicing), 7)
+    import control
+    controls = control.hazard_controls()
     res.coverage = {
+        "positive_controls": controls,
         "explanation": "monomorphic reachability from Expr::parse / Rule::parse: %d instances, %d crate-local bodies = %d user-written (of which %d grammar actions) + %d generated-automaton "
                        "bodies (trusted). %d hazard-relevant sites of the user-written bodies classified; %d slicing obligations discharged against token regexes."
                        % (ninst, len(local), len(user), len(actions), len(generated), nsites, len(slicing)),
